@@ -14,7 +14,8 @@ Two detectors:
   * oracle (independent of the model): NumPy float64 closed forms of the log density / mass (exact change
     of variables: no epsilon, no clamp), analytic entropies, mode = maximiser, normalisation (sum over
     all discrete actions, numerical integration of exp(log_prob) in 1-D), samples in the support,
-    log_prob_from_params == log_prob(returned sample); fixed-seed goodness of fit (KS / chi-square at
+    log_prob_from_params == log_prob(returned sample); history independence (log_prob / mode / entropy after any call
+    sequence, and after re-parametrising the same object, equal those of a fresh object and the closed form); fixed-seed goodness of fit (KS / chi-square at
     significance 1e-6 on 50 000 draws; 24 cases in the quick tier, 240 in the thorough tier).
 """
 from __future__ import annotations
@@ -36,7 +37,11 @@ RULE = (
     "(latent 1-5 x action 1-4, full_std x use_expln x squash, log-std entries in [-20,2], latent incl. 0, one shared "
     "or per-row exploration matrices), bijector (TanhBijector on +-1, +-(1-eps/2), random), sumdims (rank 1/2 "
     "integer-valued tensors), gof (50 000 seeded draws of one parameter setting per distribution: KS per dimension / "
-    "chi-square over the joint support, significance 1e-6). Every float is a float32 value. non-trivial = batch >= 2 and dim >= 2 (continuous), "
+    "chi-square over the joint support, significance 1e-6), history (every distribution class: proba_distribution, then "
+    "1-5 of sample / mode / get_actions(det or not) / log_prob(x) / entropy / sample_weights in random order, optionally "
+    "proba_distribution again with other parameters on the same object, then log_prob(y) for independent in-support "
+    "actions of the same batch shape and - one-row parameters - of another batch shape; compared with a fresh object, "
+    "the closed form and the model). Every float is a float32 value. non-trivial = batch >= 2 and dim >= 2 (continuous), "
     "a peaked or tied row (discrete), >= 2 blocks (multicat), squashed action beyond 0.999, or gsde with latent >= 2; "
     "distinct = distinct canonical case"
 )
@@ -327,11 +332,28 @@ def gen_cases(ctx):
     # because the scale of the sampler's noise is not observable in any single deterministic comparison
     for i in range(ctx.budget(24, 240)):
         cases.append(gen_gof(ctx.rng, GOF_DISTS[i % len(GOF_DISTS)]))
+    for i in range(ctx.budget(360, 3600)):
+        cases.append(gen_history(ctx.rng, HIST_DISTS[i % len(HIST_DISTS)]))
     return cases
 
 
 def shrink_candidates(case):
     k = case.get("kind")
+    if k == "history":
+        for i in range(len(case["ops"])):
+            if len(case["ops"]) > 1:
+                c = dict(case)
+                c["ops"] = case["ops"][:i] + case["ops"][i + 1:]
+                yield c
+        if case["reparam"]:
+            c = dict(case)
+            c["reparam"] = False
+            yield c
+        if case.get("y2") is not None:
+            c = dict(case)
+            c["y2"] = None
+            yield c
+        return
     rowfields = {"diag": ["mean", "log_std", "actions"], "squashed": ["mean", "log_std", "actions"],
                  "cat": ["logits", "actions", "rowkinds"], "multicat": ["logits", "actions", "rowkinds"],
                  "bern": ["logits", "actions"], "gsde": ["latent", "mean", "z"]}.get(k)
@@ -1326,8 +1348,248 @@ def run_gof(ctx, case):
     return {"ops": [], "impl": {}}
 
 
+
+# ------------------------------------------------------------------------------------------------
+# call-history cases: the value of log_prob(y) must not depend on what was called on the object before
+HIST_DISTS = ["squashed", "gsde", "diag", "cat", "multicat", "bern"]
+HIST_OPS = ["sample", "mode", "get_actions_det", "get_actions_sto", "log_prob_x", "entropy"]
+
+
+def gen_hist_params(rng, kind, B, shape):
+    """one parameter set of the given dimensions (moderate regime: log_prob(y) is well conditioned)"""
+    if kind in ("diag", "squashed"):
+        D = shape["D"]
+        return {"mean": [[f32((rng.random() - 0.5) * 4) for _ in range(D)] for _ in range(B)],
+                "log_std": [f32(-2.0 + rng.random() * 2.5) for _ in range(D)]}
+    if kind == "cat":
+        return {"logits": [g_logits(rng, shape["n"])[0] for _ in range(B)]}
+    if kind == "multicat":
+        return {"logits": [sum((g_logits(rng, n)[0] for n in shape["nvec"]), []) for _ in range(B)]}
+    if kind == "bern":
+        return {"logits": [[f32((rng.random() - 0.5) * 8) for _ in range(shape["D"])] for _ in range(B)]}
+    L, n, cols = shape["L"], shape["n"], shape["cols"]
+    return {"log_std": [[f32(-2.5 + rng.random() * 3) for _ in range(cols)] for _ in range(L)],
+            "latent": [[f32((rng.random() - 0.5) * 4) for _ in range(L)] for _ in range(B)],
+            "mean": [[f32((rng.random() - 0.5) * 3) for _ in range(n)] for _ in range(B)]}
+
+
+def gen_hist_actions(rng, kind, rows, shape, squash=False):
+    if kind in ("diag", "squashed") or kind == "gsde":
+        D = shape["D"] if kind != "gsde" else shape["n"]
+        if kind == "squashed" or (kind == "gsde" and squash):
+            return [[f32(math.tanh((rng.random() - 0.5) * 5)) for _ in range(D)] for _ in range(rows)]
+        return [[f32((rng.random() - 0.5) * 6) for _ in range(D)] for _ in range(rows)]
+    if kind == "cat":
+        return [rng.randint(0, shape["n"] - 1) for _ in range(rows)]
+    if kind == "multicat":
+        return [[rng.randint(0, n - 1) for n in shape["nvec"]] for _ in range(rows)]
+    return [[float(rng.randint(0, 1)) for _ in range(shape["D"])] for _ in range(rows)]
+
+
+def gen_history(rng, kind=None):
+    kind = kind or rng.choice(HIST_DISTS)
+    B = 1 if rng.chance(0.35) else rng.randint(2, 5)
+    shape = {"D": rng.randint(1, 4), "n": rng.randint(2, 5), "nvec": [rng.randint(1, 4) for _ in range(rng.randint(1, 3))],
+             "L": rng.randint(1, 4)}
+    case = {"kind": "history", "dist": kind, "shape": shape, "tseed": rng.randint(0, 2**31 - 1)}
+    if kind == "gsde":
+        case.update({"full_std": rng.chance(0.6), "use_expln": rng.chance(0.5), "squash": rng.chance(0.6)})
+        shape["cols"] = shape["n"] if case["full_std"] else 1
+    sq = case.get("squash", False)
+    case["reparam"] = rng.chance(0.4)
+    case["p1"] = gen_hist_params(rng, kind, B, shape)
+    case["p2"] = gen_hist_params(rng, kind, B, shape)
+    ops = [rng.choice(HIST_OPS + (["sample_weights"] if kind == "gsde" else [])) for _ in range(rng.randint(1, 4))]
+    if rng.chance(0.5):  # the histories that leave something cached: a sample / mode right before log_prob(y)
+        ops.append(rng.choice(["sample", "mode", "get_actions_sto", "get_actions_det"]))
+    case["ops"] = ops
+    case["x"] = gen_hist_actions(rng, kind, B, shape, sq)
+    case["y"] = gen_hist_actions(rng, kind, B, shape, sq)  # independent actions of the same batch shape
+    # actions of a different batch shape (possible when the parameters have one row and broadcast)
+    case["y2"] = gen_hist_actions(rng, kind, rng.randint(2, 4), shape, sq) if B == 1 else None
+    return case
+
+
+def hist_make(case):
+    from stable_baselines3.common import distributions as Dm
+
+    k, sh = case["dist"], case["shape"]
+    if k == "diag":
+        return Dm.DiagGaussianDistribution(sh["D"])
+    if k == "squashed":
+        return Dm.SquashedDiagGaussianDistribution(sh["D"])
+    if k == "cat":
+        return Dm.CategoricalDistribution(sh["n"])
+    if k == "multicat":
+        return Dm.MultiCategoricalDistribution(list(sh["nvec"]))
+    if k == "bern":
+        return Dm.BernoulliDistribution(sh["D"])
+    return make_gsde(case, sh["n"], sh["L"])
+
+
+def hist_set(obj, case, p):
+    k = case["dist"]
+    if k in ("diag", "squashed"):
+        obj.proba_distribution(T(p["mean"]), T(p["log_std"]))
+    elif k == "gsde":
+        obj.proba_distribution(T(p["mean"]), T(p["log_std"]), T(p["latent"]))
+    else:
+        obj.proba_distribution(T(p["logits"]))
+
+
+def hist_act(case, a):
+    import torch as th
+
+    if case["dist"] in ("cat", "multicat"):
+        return th.tensor(np.asarray(a, dtype=np.int64))
+    return T(a)
+
+
+def hist_closed(case, p, y):
+    """closed form (float64) of log_prob(y) under parameters p, rows of p broadcast to the rows of y"""
+    k, sh = case["dist"], case["shape"]
+    R = len(y)
+
+    def rows(m):
+        m = A(m)
+        return np.broadcast_to(m, (R, m.shape[1])) if m.shape[0] != R else m
+
+    if k in ("diag", "squashed"):
+        mean, sig, ya = rows(p["mean"]), np.exp(rows([p["log_std"]])), A(y)
+        if k == "diag":
+            t, sc = o_normal_terms(mean, sig, ya)
+            return t.sum(axis=1), sc.sum(axis=1), np.zeros(R)
+        return sq_reg(mean, sig, ya)
+    if k == "cat":
+        lg = rows(p["logits"])
+        cl = [cat_closed(lg[b]) for b in range(R)]
+        return np.array([cl[b][0][y[b]] for b in range(R)]), np.array([c[3] for c in cl]), np.zeros(R)
+    if k == "multicat":
+        lg = rows(p["logits"])
+        offs = np.concatenate([[0], np.cumsum(sh["nvec"])])
+        lp, sc = [], []
+        for b in range(R):
+            bl = [cat_closed(lg[b, offs[j]:offs[j + 1]]) for j in range(len(sh["nvec"]))]
+            lp.append(sum(bl[j][0][y[b][j]] for j in range(len(bl))))
+            sc.append(sum(x[3] for x in bl))
+        return np.array(lp), np.array(sc), np.zeros(R)
+    if k == "bern":
+        lg, ya = rows(p["logits"]), A(y)
+        ls1, ls0 = -np.logaddexp(0.0, -lg), -np.logaddexp(0.0, lg)
+        return (ya * ls1 + (1 - ya) * ls0).sum(axis=1), (np.abs(lg) + 1.0).sum(axis=1), np.zeros(R)
+    std = gsde_std64(case, A(p["log_std"]))
+    if not case["full_std"]:
+        std = np.repeat(std, sh["n"], axis=1)
+    var = rows((A(p["latent"]) ** 2) @ (std ** 2))
+    return gs_lp(rows(p["mean"]), var, A(y), case["squash"], EPSILON, EPSILON, True)
+
+
+def hist_model_op(case, p, y):
+    k, sh = case["dist"], case["shape"]
+    R = len(y)
+
+    def rows(m):
+        m = A(m)
+        return np.broadcast_to(m, (R, m.shape[1])) if m.shape[0] != R else m
+
+    if k in ("diag", "squashed"):
+        op = {"op": k, "mean": enc(rows(p["mean"])), "log_std": enc(rows([p["log_std"]])), "actions": enc(A(y))}
+        if k == "diag":
+            op["unbatched"] = False
+        else:
+            op.update({"epsilon": bits(EPSILON), "eps": bits(EPS32)})
+        return op
+    if k == "cat":
+        return {"op": "cat", "logits": enc(rows(p["logits"])), "actions": [int(v) for v in y]}
+    if k == "multicat":
+        return {"op": "multicat", "nvec": list(sh["nvec"]), "logits": enc(rows(p["logits"])),
+                "actions": [[int(v) for v in r] for r in y]}
+    if k == "bern":
+        return {"op": "bern", "logits": enc(rows(p["logits"])), "actions": enc(A(y))}
+    W0 = np.zeros((R, sh["L"], sh["n"]))
+    return {"op": "gsde", "full_std": case["full_std"], "use_expln": case["use_expln"], "squash": case["squash"],
+            "epsilon": bits(EPSILON), "eps": bits(EPS32), "action_dim": sh["n"], "log_std": enc(A(p["log_std"])),
+            "mean": enc(rows(p["mean"])), "latent": enc(rows(p["latent"])), "actions": enc(A(y)), "W": enc(W0)}
+
+
+def run_history(ctx, case):
+    import torch as th
+
+    rep = ctx.report
+    k = case["dist"]
+    final = case["p2"] if case["reparam"] else case["p1"]
+    th.manual_seed(case["tseed"])
+    obj = hist_make(case)
+    if k == "gsde":
+        obj.sample_weights(T(case["p1"]["log_std"]), batch_size=len(case["p1"]["mean"]))
+    hist_set(obj, case, case["p1"])
+    half = len(case["ops"]) // 2 if case["reparam"] else None
+    for i, o in enumerate(case["ops"]):
+        if half is not None and i == half:
+            hist_set(obj, case, case["p2"])  # same object, new parameters: nothing of the first set may survive
+        if o == "sample":
+            obj.sample()
+        elif o == "mode":
+            obj.mode()
+        elif o == "get_actions_det":
+            obj.get_actions(deterministic=True)
+        elif o == "get_actions_sto":
+            obj.get_actions(deterministic=False)
+        elif o == "log_prob_x":
+            obj.log_prob(hist_act(case, case["x"]))
+        elif o == "entropy":
+            obj.entropy()
+        elif o == "sample_weights":
+            obj.sample_weights(T(final["log_std"]), batch_size=rep_batch(case))
+    if half is not None and half >= len(case["ops"]):
+        hist_set(obj, case, case["p2"])
+    fresh = hist_make(case)
+    hist_set(fresh, case, final)
+    ops_out, impl_all, scales_all = [], None, None
+    for name in ("y", "y2"):
+        y = case.get(name)
+        if y is None:
+            continue
+        lp_h = N(obj.log_prob(hist_act(case, y)))
+        lp_f = N(fresh.log_prob(hist_act(case, y)))
+        c_lp, c_sc, c_cond = hist_closed(case, final, y)
+        if lp_h.shape != (len(y),):
+            V(rep, "one log_prob per row of the evaluated actions expected", case, k, "shape", "sum_axis", {"lp": lp_h.shape})
+            return None
+        for b in range(len(y)):
+            if not Tol.ok(lp_h[b], lp_f[b], c_sc[b], 0.0, k=0.1):
+                V(rep, "log_prob(y) depends on what was called on the distribution object before: it differs from "
+                  "log_prob(y) of a fresh object with the same parameters", case, k, "log_prob", "history_dependent",
+                  {"actions": name, "row": b, "after_history": lp_h[b], "fresh": lp_f[b], "closed_form": c_lp[b],
+                   "ops": case["ops"], "reparam": case["reparam"]})
+                return None
+            if not Tol.ok(lp_h[b], c_lp[b], c_sc[b], c_cond[b]):
+                V(rep, "log_prob(y) after a call history differs from the closed-form log density / mass of the current "
+                  "parameters", case, k, "log_prob", "formula",
+                  {"actions": name, "row": b, "after_history": lp_h[b], "closed_form": c_lp[b]})
+                return None
+        if name == "y":
+            ops_out.append(hist_model_op(case, final, y))
+            impl_all = {"log_prob": lp_h}
+            scales_all = {"log_prob": c_sc + c_cond / RTOL}
+    # mode / entropy are functions of the parameters only
+    m_h, m_f = obj.mode(), fresh.mode()
+    if not np.array_equal(N(m_h), N(m_f)):
+        V(rep, "mode() depends on the call history", case, k, "mode", "history_dependent")
+        return None
+    e_h, e_f = obj.entropy(), fresh.entropy()
+    if (e_h is None) != (e_f is None) or (e_h is not None and not np.array_equal(N(e_h), N(e_f))):
+        V(rep, "entropy() depends on the call history", case, k, "entropy", "history_dependent")
+        return None
+    return {"ops": ops_out, "impl": impl_all, "scales": scales_all}
+
+
+def rep_batch(case):
+    return len(case["p1"]["mean"])
+
+
 RUNNERS = {"diag": run_diag, "squashed": run_squashed, "cat": run_cat, "multicat": run_multicat, "bern": run_bern,
-           "gsde": run_gsde, "bijector": run_bijector, "sumdims": run_sumdims, "gof": run_gof}
+           "gsde": run_gsde, "bijector": run_bijector, "sumdims": run_sumdims, "gof": run_gof, "history": run_history}
 
 
 # ------------------------------------------------------------------------------------------------
@@ -1345,6 +1607,8 @@ def nontrivial(case):
         return any(abs(l) >= 15 or l == 0 for r in case["logits"] for l in r)
     if k == "gsde":
         return len(case["log_std"]) >= 2
+    if k == "history":
+        return len(case["ops"]) >= 2 or case["reparam"]
     return False
 
 
@@ -1433,6 +1697,11 @@ def check_cases(ctx, cases):
             rep.count(f"gsde:full_std={int(case['full_std'])},expln={int(case['use_expln'])},squash={int(case['squash'])}")
         if k == "diag" and case.get("unbatched"):
             rep.count("diag:unbatched")
+        if k == "history":
+            rep.count(f"history:{case['dist']}")
+            rep.count(f"history:last_op={case['ops'][-1]}")
+            rep.count("history:reparam" if case["reparam"] else "history:single_params")
+            rep.count("history:other_batch_shape" if case.get("y2") is not None else "history:same_batch_shape")
         if k == "squashed":
             aa = [abs(a) for r_ in case["actions"] for a in r_]
             rep.count("squashed:has_exact_one" if 1.0 in aa else "squashed:has_beyond_clamp" if max(aa) > 1 - EPS32
